@@ -162,7 +162,7 @@ Example C08_history_nonvacuous :
      = [(3, 3, 0); (1, 2, 0)]%N).
 Proof.
   cbv zeta. split; [|split].
-  - vm_compute. repeat split; try reflexivity; try discriminate; intros; try reflexivity; try discriminate.
+  - apply run_okb_ok. vm_compute. reflexivity.
   - eexists. unfold Gone, no_live. vm_compute. repeat split; reflexivity.
   - vm_compute. split; reflexivity.
 Qed.
